@@ -1846,4 +1846,13 @@ pub mod verif_hooks {
             &mut self.info
         }
     }
+    /// Variant name of a `TabletParsingError` (for `cluster::verif_update_tablets`).
+    pub(crate) fn parsing_error_class(err: &TabletParsingError) -> &'static str {
+        match err {
+            TabletParsingError::Deserialization(_) => "Deserialization",
+            TabletParsingError::TypeCheck(_) => "TypeCheck",
+            TabletParsingError::ShardNum(_) => "ShardNum",
+            TabletParsingError::WrongTokenRange(_, _) => "WrongTokenRange",
+        }
+    }
 }
